@@ -124,7 +124,10 @@ func (Call) isExpr()        {}
 type (
 	// ExprStmt is an expression used as a statement (the only statement
 	// kind whose value is defined).
-	ExprStmt struct{ X Expr }
+	ExprStmt struct {
+		X   Expr
+		Tag int // not rendered; reported through Config.OnSignal when not 0
+	}
 	// Assign is `a = e` / `a, b = e1, e2`: set the nearest binding, else
 	// define in the current block.
 	Assign struct {
@@ -238,13 +241,13 @@ func (Module) isStmt()   {}
 // ---- small constructors (generators read better with them) ----
 
 // P is the statement `p(id)`.
-func P(id int) Stmt { return ExprStmt{Probe{ID: id}} }
+func P(id int) Stmt { return ExprStmt{X: Probe{ID: id}} }
 
 // PV is the statement `p(id, ret)`.
-func PV(id int, ret Expr) Stmt { return ExprStmt{Probe{ID: id, Ret: ret}} }
+func PV(id int, ret Expr) Stmt { return ExprStmt{X: Probe{ID: id, Ret: ret}} }
 
 // V is the statement `v(args...)`.
-func V(args ...Expr) Stmt { return ExprStmt{Show{Args: args}} }
+func V(args ...Expr) Stmt { return ExprStmt{X: Show{Args: args}} }
 
 // Set is the statement `name = e`.
 func Set(name string, e Expr) Stmt { return Assign{Names: []string{name}, Vals: []Expr{e}} }
@@ -260,7 +263,7 @@ func S(v string) Expr { return Str{v} }
 
 // Func is the statement `func name(params) { body }`.
 func Func(name string, params []string, body []Stmt) Stmt {
-	return ExprStmt{&FuncLit{Name: name, Params: params, Body: body}}
+	return ExprStmt{X: &FuncLit{Name: name, Params: params, Body: body}}
 }
 
 // CallNamed is the expression `name(args...)`.
